@@ -127,10 +127,55 @@ pub const DEEP_OPENERS: [&str; 4] = ["- ", "? ", "- ? ", "- - k: "];
 pub fn deep_count() -> u64 {
     (DEEP_DEPTHS.len() * DEEP_OPENERS.len() * 3) as u64
 }
+/// Very large single documents (counts past 2^20): one in the quick tier, all in the thorough one.
+pub static HUGE_ON: std::sync::atomic::AtomicBool = std::sync::atomic::AtomicBool::new(false);
+pub const HUGE_KINDS: [&str; 4] = ["aliases", "anchors", "documents", "keys"];
+pub fn huge_count() -> u64 {
+    if HUGE_ON.load(std::sync::atomic::Ordering::Relaxed) {
+        (HUGE_KINDS.len() * 2) as u64
+    } else {
+        1
+    }
+}
+fn huge_case(k: u64) -> Case {
+    let kind = HUGE_KINDS[(k / 2 % HUGE_KINDS.len() as u64) as usize];
+    let client = if k % 2 == 0 { Client::LoadMulti } else { Client::LoadSingle };
+    let n = (1usize << 20) + 1000;
+    let mut text = String::with_capacity(n * 8);
+    match kind {
+        "aliases" => {
+            text.push_str("- &a x\n");
+            for _ in 0..n {
+                text.push_str("- *a\n");
+            }
+        }
+        "anchors" => {
+            for i in 0..n / 4 {
+                text.push_str(&format!("- &a{i} x\n"));
+            }
+            text.push_str("--- *a7\n");
+        }
+        "documents" => {
+            for _ in 0..n / 4 {
+                text.push_str("--- a\n");
+            }
+        }
+        _ => {
+            for i in 0..n / 4 {
+                text.push_str(&format!("k{i}: v\n"));
+            }
+        }
+    }
+    Case { prop: "C17".into(), gen: "L-huge".into(), text, input: InputKind::Str, client, ..Case::default() }
+}
 pub fn probe_count() -> u64 {
-    (PROBE_FAMILIES.len() * PROBE_SIZES.len() * PROBE_TAILS.len() * 3) as u64 + deep_count()
+    (PROBE_FAMILIES.len() * PROBE_SIZES.len() * PROBE_TAILS.len() * 3) as u64 + deep_count() + huge_count()
 }
 fn probe_case(k: u64) -> Case {
+    if k < huge_count() {
+        return huge_case(k);
+    }
+    let k = k - huge_count();
     if k < deep_count() {
         let client = [Client::PeekNext, Client::LoadMulti, Client::LoadSingle][(k % 3) as usize].clone();
         let j = k / 3;
